@@ -46,6 +46,9 @@ func (req *SrvReq) RespondError(err interface{}) {
 	if *Akaros {
 		max -= len(fmt.Sprintf("%04X ", ecode)) /* prefix added by PackRerror */
 	}
+	if max > 0xFFFF {
+		max = 0xFFFF /* the length of a string is 16 bits wide */
+	}
 	if max >= 0 && len(ename) > max {
 		ename = ename[0:max]
 	}
